@@ -311,6 +311,11 @@ class FnAnalysis:
             return T.cbytes(c["bytes"])
         if c.get("zst"):
             return Term("zst", norm(c["ty"]))
+        if "ref_const" in c:
+            rc = c["ref_const"]
+            if "variant" in rc:
+                return T.refval(T.agg("adt", norm(rc["adt"]), rc["variant"], rc["variant_name"], []))
+            return T.refval(T.const(norm(rc["ty"]), int(rc["bits"])))
         return Term("opaque", c.get("opaque"), norm(c["ty"]))
 
     def operand(self, st, o):
@@ -435,6 +440,17 @@ class FnAnalysis:
                 self._assume(out, t.args[2], False)
         out.add(("true" if truth else "false", t))
         if t.op == "bin" and t.args[0] in ("Eq", "Ne"):
+            dv = self._discr_cmp(t)
+            if dv is not None:
+                base, names, k = dv
+                eq = (t.args[0] == "Eq") == truth
+                if 0 <= k < len(names):
+                    if eq:
+                        out.add(("var", base, names[k]))
+                    else:
+                        out.add(("notvar", base, names[k]))
+                        if len(names) == 2:
+                            out.add(("var", base, names[1 - k]))
             a, b = t.args[1], t.args[2]
             eq = (t.args[0] == "Eq") == truth
             if b.op == "const":
@@ -454,6 +470,14 @@ class FnAnalysis:
         if ("false", t) in facts:
             return False
         if t.op == "bin" and t.args[0] in ("Eq", "Ne"):
+            dv = self._discr_cmp(t)
+            if dv is not None:
+                base, names, k = dv
+                if 0 <= k < len(names):
+                    if ("var", base, names[k]) in facts:
+                        return t.args[0] == "Eq"
+                    if ("notvar", base, names[k]) in facts or any(("var", base, n) in facts for i, n in enumerate(names) if i != k):
+                        return t.args[0] == "Ne"
             a, b = t.args[1], t.args[2]
             if a.op == "const":
                 a, b = b, a
@@ -467,11 +491,25 @@ class FnAnalysis:
                         return t.args[0] == "Ne"
         return None
 
+    def _discr_cmp(self, t):
+        """t = Eq/Ne(discr(x), const k) -> (base, variant names of base, k)"""
+        a, b = t.args[1], t.args[2]
+        if a.op == "const":
+            a, b = b, a
+        if a.op == "discr" and b.op == "const" and isinstance(b.args[1], int):
+            vs = self._variants_for_discr(a.args[0])
+            if vs:
+                base, names = self.norm_var(a.args[0], vs)
+                if base is not None:
+                    return base, names, b.args[1]
+        return None
+
     # ------------------------------------------------------------------ main loop
     def _initial_state(self):
         env = {}
         for i in range(1, self.body["arg_count"] + 1):
             env[(("L", i), ())] = T.param(i)
+            self.hint(T.param(i), self.local_ty.get(i))
         facts = set()
         for a in self.assume:
             facts.add(a)
